@@ -88,7 +88,7 @@ func cmpVersions(a, b string, n int) int {
 }
 
 func c19(r *rep.Run) {
-	r.SetBudget(150e9)
+	r.SetBudget(300e9)
 	if r.Thorough() {
 		r.SetBudget(1800e9)
 	}
